@@ -45,6 +45,10 @@ CLAIMED = {
    text="Deductive proof (K2 guard contracts) at the channel API, which is where every settle or fail of an HTLC enters the update log: in SettleHTLC / ReceiveHTLCSettle the appended Settle entry is dominated by: the HTLC exists in the right log, it has no earlier modification, and its payment hash equals sha256 of the supplied preimage (sha256 as an opaque function of the preimage bytes); the entry carries that HTLC's amount and index and the preimage; FailHTLC / MalformedFailHTLC / ReceiveFailHTLC append a fail entry only for an existing, unmodified HTLC with its amount and hash; every success path marks the HTLC modified after appending (called() ghost predicates), so a second settle-or-fail of the same HTLC is refused.",
    note="Decides 'the incoming HTLC is settled only with the preimage' and 'at most one settle-or-fail per HTLC' at the update-log level. Not decided: fail-back only after the outgoing HTLC is irrevocably removed, balance conservation at quiescence, dangling circuits - properties of link / switch / mailbox message flows under restarts and drops (histories).",
    ref="DESIGN.md §4 C08"),
+ "C11": dict(
+   text="Deductive proof per function of the transport's counter, rotation and flush mechanics: Encrypt / Decrypt call the AEAD with the nonce buffer whose bytes [4:12] were just set to LE64(old nonce) under the old cipher, then the nonce is old+1, or at 1000 rotateKey runs (deferred closure encoded inline; object invariant nonce < 1000); rotateKey derives from (old key, salt), reads the new salt first and the next key second and re-initialises with nonce 0; InitializeKey(WithSalt) set key / salt / nonce 0; split hands the first HKDF output to the initiator's send cipher and the second to its receive cipher, the responder the reverse, all salted with the chaining key; WriteMessage rejects > 65535 bytes and an unflushed previous message, encrypts BE16(len) as header first and the body second with the send cipher; Flush, for every split point the writer may choose (0 <= n <= len), keeps exactly the unsent suffix of header and body, never writes the body before the header went out without error, reports exactly the payload bytes written (MAC accounting formula) and releases buffers only when both are empty; ReadHeader returns BE16(plain)+16 after a full read and successful decrypt; each Recv act continues only with version byte 0 and a successful DecryptAndHash, RecvActThree splits only after both.",
+   note="A-ext: AEAD Seal/Open, HKDF, binary.*Endian, io.ReadFull and io.Writer.Write (0 <= n <= len) are opaque; the contracts pin which buffers and values flow into them. With A-crypto (HKDF outputs never cycle) the step relation is what 'no (key, nonce) pair is used twice' rests on. Not decided: that the handshake completes exactly for the right static key, rejection of every ciphertext modification (AEAD/ECDH semantics), ordering across the network, mixKey/mixHash digest chain.",
+   ref="DESIGN.md §4 C11"),
 }
 
 NOT_APPLICABLE = {
